@@ -50,7 +50,7 @@ ERRCODES = {'covSubscriptionFailed': 43, 'operationalProblem': 25, 'unknownObjec
 class Sim:
     """one device + subscriber stacks; every method returns the observation of that event"""
 
-    def __init__(self, cfg, nclients=3):
+    def __init__(self, cfg, nclients=3, silent=()):
         import core
         core.impl_import_guard()
         logging.disable(logging.CRITICAL)
@@ -66,7 +66,8 @@ class Sim:
         class Cli(Capability):
             def do_ConfirmedCOVNotificationRequest(self, apdu):
                 outer.notifs.append((self.cli_no, 1, apdu))
-                self.response(SimpleAckPDU(context=apdu))
+                if self.cli_no not in outer.silent:        # a silent subscriber never answers: retries, then abort
+                    self.response(SimpleAckPDU(context=apdu))
 
             def do_UnconfirmedCOVNotificationRequest(self, apdu):
                 outer.notifs.append((self.cli_no, 0, apdu))
@@ -77,7 +78,15 @@ class Sim:
         self.clock = VClock(T0)
         assert _task._task_manager is self.clock.tm and not self.clock.tm.tasks
         self.lan = self.clock.network()
-        self.dev = Stack(self.clock, self.lan, 1, services=[ChangeOfValueServices, ReadWritePropertyServices])
+        class Issued:
+            """records every COV notification at the moment the service hands it to the application (request_io)"""
+            def cov_notification(self, cov, request):
+                outer.issued.append(outer._canon_issue(request))
+                super().cov_notification(cov, request)
+
+        self.silent = set(silent)
+        self.issued = []
+        self.dev = Stack(self.clock, self.lan, 1, services=[Issued, ChangeOfValueServices, ReadWritePropertyServices])
         self.clients = {}
         for i in range(2, 2 + nclients):
             c = Stack(self.clock, self.lan, i, services=[Cli])
@@ -140,11 +149,76 @@ class Sim:
         dev_ok = tuple(apdu.initiatingDeviceIdentifier) == ('device', 1)
         return (cli, int(apdu.subscriberProcessIdentifier), oid, conf, int(apdu.timeRemaining), pvz, flz if dev_ok else -995)
 
+    def _canon_issue(self, request):
+        from bacpypes.apdu import ConfirmedCOVNotificationRequest
+        a = request.pduDestination
+        cli = a.addrAddr[0] if (a is not None and a.addrAddr and len(a.addrAddr) == 1 and not a.addrNet) else -1
+        return self._canon_notif(cli, 1 if isinstance(request, ConfirmedCOVNotificationRequest) else 0, request)
+
     def _finish(self, tag, ack=0, code=0, errors=(), active=None):
         ns = sorted(self._canon_notif(*n) for n in self.notifs)
         self.notifs = []
-        return {'ev': tag, 'ack': ack, 'code': code, 'nerr': len(errors), 'notifs': ns, 'active': active,
-                'errors': [repr(e)[:120] for e in errors]}
+        iss = sorted(self.issued)
+        self.issued = []
+        return {'ev': tag, 'ack': ack, 'code': code, 'nerr': len(errors), 'notifs': iss, 'received': ns, 'active': active,
+                'pending': len(self._cov_items()), 'errors': [repr(e)[:120] for e in errors]}
+
+    # -- the deferred queue, driven by hand: COV functions one at a time, all the plumbing (LAN delivery tasks,
+    #    IOCB queue triggers) to quiescence
+    def _is_cov(self, item):
+        from bacpypes.service.detect import DetectionAlgorithm
+        return isinstance(getattr(item[0], '__self__', None), DetectionAlgorithm)
+
+    def _cov_items(self):
+        return [x for x in self.clock.core.deferredFns if self._is_cov(x)]
+
+    def _plumbing(self):
+        bc, errors, n = self.clock.core, [], 0
+        while True:
+            progressed = False
+            rest = [x for x in bc.deferredFns if not self._is_cov(x)]
+            if rest:
+                bc.deferredFns = [x for x in bc.deferredFns if self._is_cov(x)]
+                for fn, a, k in rest:
+                    try:
+                        fn(*a, **k)
+                    except Exception as e:
+                        errors.append(e)
+                progressed = True
+            t, _ = self.clock.tm.get_next_task()
+            if t is not None:
+                try:
+                    self.clock.tm.process_task(t)
+                except Exception as e:
+                    errors.append(e)
+                progressed = True
+            n += 1
+            if not progressed:
+                return errors
+            if n > 100000:
+                raise RuntimeError('plumbing: step limit')
+
+    def _step_q(self):
+        bc, errors = self.clock.core, []
+        for i, x in enumerate(bc.deferredFns):
+            if self._is_cov(x):
+                del bc.deferredFns[i]
+                try:
+                    x[0](*x[1], **x[2])
+                except Exception as e:
+                    errors.append(e)
+                break
+        return errors + self._plumbing()
+
+    def _drain_q(self):
+        errors = self._plumbing()
+        n = 0
+        while self._cov_items():
+            errors += self._step_q()
+            n += 1
+            if n > 10000:
+                raise RuntimeError('drain: step limit')
+        return errors
 
     def _response(self, iocb):
         from bacpypes.apdu import SimpleAckPDU, ComplexAckPDU, Error, RejectPDU, AbortPDU
@@ -182,37 +256,58 @@ class Sim:
         return self._finish('W')
 
     def drain(self):
-        return self._finish('D', errors=self.clock.drain())
+        return self._finish('D', errors=self._drain_q())
 
-    def subscribe(self, c, proc, oid, conf, life):
-        from bacpypes.apdu import SubscribeCOVRequest
+    def step_q(self):
+        return self._finish('Q', errors=self._step_q())
+
+    def _request(self, c, proc, oid, conf, life, variant):
+        from bacpypes.apdu import SubscribeCOVRequest, SubscribeCOVPropertyRequest
+        from bacpypes.basetypes import PropertyReference
         kw = {}
         if conf is not None:
             kw['issueConfirmedNotifications'] = bool(conf)
         if life is not None:
             kw['lifetime'] = life
-        io = self.clients[c].send(SubscribeCOVRequest(subscriberProcessIdentifier=proc,
-                                                      monitoredObjectIdentifier=self._objid(oid), **kw), self.dev.address)
-        errs = self.clock.drain()
-        ack, code = self._response(io)
-        return self._finish('S' if (conf is not None or life is not None) else 'X', ack, code, errs)
+        if variant == 'P':
+            req = SubscribeCOVPropertyRequest(subscriberProcessIdentifier=proc, monitoredObjectIdentifier=self._objid(oid),
+                                              monitoredPropertyIdentifier=PropertyReference(propertyIdentifier='presentValue'), **kw)
+        else:
+            req = SubscribeCOVRequest(subscriberProcessIdentifier=proc, monitoredObjectIdentifier=self._objid(oid), **kw)
+        io = self.clients[c].send(req, self.dev.address)
+        errs = self._plumbing()
+        return io, errs
 
-    def cancel(self, c, proc, oid):
-        return self.subscribe(c, proc, oid, None, None)
+    def subscribe(self, c, proc, oid, conf, life, variant=None, now=False):
+        errs = [] if now else self._drain_q()
+        io, e2 = self._request(c, proc, oid, conf, life, variant)
+        errs += e2
+        if not now:
+            errs += self._drain_q()
+        ack, code = self._response(io)
+        cancel = conf is None and life is None
+        tag = ('XN' if cancel else 'SN') if now else ('X' if cancel else 'S')
+        return self._finish(tag, ack, code, errs)
+
+    def cancel(self, c, proc, oid, now=False):
+        return self.subscribe(c, proc, oid, None, None, now=now)
 
     def advance(self, ticks):
-        errs = self.clock.advance(ticks / TICKS)
+        errs = self._drain_q()
+        errs += self.clock.advance(ticks / TICKS)
         self.ticks += ticks
         assert self.clock.now[0] == T0 + self.ticks / TICKS
+        assert not self._cov_items()
         return self._finish('A', errors=errs)
 
-    def read_active(self, c):
+    def read_active(self, c, now=False):
         from bacpypes.apdu import ReadPropertyRequest
         from bacpypes.basetypes import COVSubscription
         from bacpypes.constructeddata import ListOf
+        errs = [] if now else self._drain_q()
         io = self.clients[c].send(ReadPropertyRequest(objectIdentifier=('device', 1),
                                                      propertyIdentifier='activeCovSubscriptions'), self.dev.address)
-        errs = self.clock.drain()
+        errs += self._plumbing()
         ack, code = self._response(io)
         active = None
         if ack == 1:
@@ -231,7 +326,7 @@ class Sim:
                 active.append((cli, int(e.recipient.processIdentifier), oid_of(t, inst) if pid == 'presentValue' else -1,
                                int(bool(e.issueConfirmedNotifications)), int(e.timeRemaining), hasinc, incz))
             active.sort()
-        return self._finish('R', ack, code, errs, active)
+        return self._finish('RN' if now else 'R', ack, code, errs, active)
 
     def run_event(self, ev):
         k = ev[0]
@@ -239,10 +334,14 @@ class Sim:
             return self.write(ev[1], ev[2], ev[3])
         if k == 'D':
             return self.drain()
-        if k == 'S':
-            return self.subscribe(ev[1], ev[2], ev[3], ev[4], ev[5])
-        if k == 'X':
-            return self.cancel(ev[1], ev[2], ev[3])
+        if k in ('S', 'SN'):
+            return self.subscribe(ev[1], ev[2], ev[3], ev[4], ev[5], ev[6] if len(ev) > 6 else None, now=(k == 'SN'))
+        if k in ('X', 'XN'):
+            return self.cancel(ev[1], ev[2], ev[3], now=(k == 'XN'))
+        if k == 'Q':
+            return self.step_q()
+        if k == 'RN':
+            return self.read_active(ev[1], now=True)
         if k == 'A':
             return self.advance(ev[1])
         if k == 'R':
@@ -250,17 +349,24 @@ class Sim:
         raise ValueError(ev)
 
 
-def run_impl(cfg, events):
-    sim = Sim(cfg)
-    return [sim.run_event(e) for e in events]
+def run_impl(cfg, events, silent=()):
+    sim = Sim(cfg, silent=silent)
+    obs = [sim.run_event(e) for e in events]
+    if silent:
+        # let every retry run out (4 transmissions x 3 s per queued confirmed notification), then collect what arrived
+        sim.clock.advance(15.0 * (1 + sum(len(o['notifs']) for o in obs)))
+        obs.append({'ev': 'flush', 'received': sorted(sim._canon_notif(*n) for n in sim.notifs)})
+    return obs
 
 
-EVTAG = {'W': 1, 'D': 2, 'S': 3, 'X': 4, 'A': 5, 'R': 6}
+EVTAG = {'W': 1, 'D': 2, 'S': 3, 'X': 4, 'A': 5, 'R': 6, 'Q': 7, 'SN': 8, 'XN': 9, 'RN': 10}
 
 
 def canon_obs(obs):
     out = []
     for o in obs:
+        if o['ev'] == 'flush':
+            continue
         out += [EVTAG[o['ev']], o['ack'], o['code'], o['nerr'], len(o['notifs'])]
         for n in o['notifs']:
             out += list(n)
@@ -292,11 +398,15 @@ def coq_events(events):
             out.append('Write %d %s %s' % (e[1], {'pv': 'PPv', 'fl': 'PFl', 'inc': 'PInc'}[e[2]], z(e[3])))
         elif k == 'D':
             out.append('Drain')
-        elif k == 'S':
-            out.append('Subscribe %d %d %d %s %s' % (e[1], e[2], e[3], 'true' if e[4] else 'false',
-                                                     'None' if e[5] is None else '(Some %d)' % e[5]))
-        elif k == 'X':
-            out.append('Cancel %d %d %d' % (e[1], e[2], e[3]))
+        elif k in ('S', 'SN'):
+            out.append('%s %d %d %d %s %s' % ('Subscribe' if k == 'S' else 'SubscribeNow', e[1], e[2], e[3],
+                                              'true' if e[4] else 'false', 'None' if e[5] is None else '(Some %d)' % e[5]))
+        elif k in ('X', 'XN'):
+            out.append('%s %d %d %d' % ('Cancel' if k == 'X' else 'CancelNow', e[1], e[2], e[3]))
+        elif k == 'Q':
+            out.append('StepQ')
+        elif k == 'RN':
+            out.append('ReadNow %d' % e[1])
         elif k == 'A':
             out.append('Advance %d' % e[1])
         elif k == 'R':
